@@ -224,6 +224,14 @@ def _pool(tier):
     pool.append(("harness.c03", "h_sdf", dict(natom=3, nbond=1)))
     pool.append(("harness.c03", "h_vasp", dict(kind="chgcar")))
     pool.append(("harness.c03", "h_xyz", dict(nframes=2, ext=True)))
+    pool.append(("harness.c03", "h_fchk", dict(basis="sp", spin="restricted", props=True)))
+    pool.append(("harness.c03", "h_fchk_trajectory", dict(kind="Opt", npoint=2)))
+    pool.append(("harness.c03", "h_wfx", dict(order="standard-p", nprim=1)))
+    pool.append(("harness.c03", "h_mwfn", dict(dtype=-2, spin="restricted")))
+    pool.append(("harness.c03", "h_molden_layout", dict(fmt="molekel", dkind="p", spin="unrestricted")))
+    pool.append(("harness.c03", "h_gaussian_log", dict(nbasis=6)))
+    for fmt, var in (("fchk", "post"), ("wfx", "full"), ("molden", "ecp"), ("molekel", "uhf"), ("json", "full")):
+        pool.append(("harness.rt", "h_roundtrip", dict(fmt=fmt, natom=2, variant=var, prop="C02")))
     pool.append(("harness.c08", "h_required", dict(fmt="xyz")))
     pool.append(("harness.c08", "h_rejection", dict(fmt="wfn")))
     pool.append(("harness.c08", "h_misc", {}))
